@@ -26,6 +26,114 @@ func runC39(c *Ctx) {
 		}
 		return cur == nil || objOf(info, recvExpr(call)) == cur
 	}
+	c.Rule("clocked-delta-is-backed", func() {
+		// A value with a causal clock (version vector) tells the receiver "every dot up to clock[n] that I do not list
+		// has been removed". A delta of such a type must therefore either be the full state (Clone) or list every live
+		// dot its clock covers; a delta with a clock but only the new dots makes peers drop earlier elements (F21).
+		rd := c.Named("crdt", "ReplicatedData")
+		n := 0
+		for _, m := range c.Implementors(rd, "Delta") {
+			if m.Pkg() == nil || relPkg(m.Pkg().Path()) != "crdt" {
+				continue
+			}
+			recvNamed := namedOf(m.Type().(*types.Signature).Recv().Type())
+			st, ok := recvNamed.Underlying().(*types.Struct)
+			if !ok {
+				continue
+			}
+			var clockF, entriesF *types.Var
+			for i := 0; i < st.NumFields(); i++ {
+				switch st.Field(i).Name() {
+				case "clock":
+					clockF = st.Field(i)
+				case "entries":
+					entriesF = st.Field(i)
+				}
+			}
+			if clockF == nil {
+				continue // no causal clock: merge is a per-slot join (counters, flag, LWW timestamp)
+			}
+			n++
+			fn := c.fnOfObj(m)
+			info := fn.Info()
+			f := c.NewFlow(fn)
+			name := recvNamed.Obj().Name()
+			// A: every non-nil return is recv.Clone()
+			fullState := true
+			for _, a := range f.Find(IsReturn) {
+				r := a.N.(*ast.ReturnStmt)
+				if len(r.Results) != 1 || isNilIdent(info, r.Results[0]) {
+					continue
+				}
+				call, isCall := ast.Unparen(r.Results[0]).(*ast.CallExpr)
+				if !isCall || !isCallNamed(info, call, "Clone") {
+					fullState = false
+				}
+			}
+			if fullState {
+				c.Ok("delta/"+name, "the delta of a clocked type is its full state (Clone)", c.P.Pos(fn.Decl.Pos()))
+				continue
+			}
+			// B: a loop over the receiver's live entries fills the delta's entries, after the delta's clock is final
+			var cover *ast.RangeStmt
+			ast.Inspect(fn.Decl.Body, func(nd ast.Node) bool {
+				r, isR := nd.(*ast.RangeStmt)
+				if !isR || entriesF == nil || selField(info, r.X) != entriesF {
+					return true
+				}
+				writes := false
+				ast.Inspect(r.Body, func(x ast.Node) bool {
+					if as, ok := x.(*ast.AssignStmt); ok {
+						for _, l := range as.Lhs {
+							if ix, ok := l.(*ast.IndexExpr); ok && selField(info, ix.X) == entriesF {
+								writes = true
+							}
+						}
+					}
+					return true
+				})
+				if writes {
+					cover = r
+				}
+				return true
+			})
+			okCover := cover != nil
+			if okCover {
+				clockWrite := func(nd ast.Node) bool {
+					as, ok := nd.(*ast.AssignStmt)
+					if !ok {
+						return false
+					}
+					for _, l := range as.Lhs {
+						if ix, ok := l.(*ast.IndexExpr); ok && selField(info, ix.X) == clockF {
+							return true
+						}
+					}
+					return false
+				}
+				for _, a := range f.Find(clockWrite) {
+					if a.N.Pos() > cover.Pos() {
+						okCover = false
+					}
+				}
+				// the covering loop is on every path to a non-nil return
+				inLoop := func(nd ast.Node) bool { return nd == ast.Node(cover.X) }
+				retVal := func(nd ast.Node) bool {
+					r, ok := nd.(*ast.ReturnStmt)
+					return ok && len(r.Results) == 1 && !isNilIdent(info, r.Results[0])
+				}
+				if w := f.MustPrecede(inLoop, nil, retVal); w != nil {
+					okCover = false
+				}
+			}
+			c.Check(okCover, "delta/"+name, "the delta of a clocked type lists every live dot its clock covers (a loop over the live entries fills the delta after its clock is final), or is the full state", c.P.Pos(fn.Decl.Pos()),
+				name+".Delta returns a value with a causal clock that is neither the full state nor backed by the live dots the clock covers: a peer drops the elements the delta does not list")
+		}
+		if n < 2 {
+			c.Undecided("delta/types", "clocked CRDT types found", "-", "found "+itoa(n))
+		}
+	})
+
 	c.Rule("merge-not-overwrite", func() {
 		for _, name := range []string{"replicatorActor.handleDelta", "replicatorActor.handleFullState"} {
 			fn := c.Func("actor", name)
